@@ -2279,6 +2279,26 @@ func reentrantLockObligations(prog *Program, g *Gen, fn *ssa.Function, key strin
 
 // chanFromField: v is a channel loaded from a struct field called name.
 func chanFromField(v ssa.Value, name string) bool {
+	if strings.HasSuffix(name, "()") {
+		// the channel a method or function of that name returned
+		m := strings.TrimSuffix(name, "()")
+		for i := 0; i < 4; i++ {
+			switch x := v.(type) {
+			case *ssa.ChangeType:
+				v = x.X
+				continue
+			case *ssa.Call:
+				if x.Call.IsInvoke() {
+					return x.Call.Method.Name() == m
+				}
+				if f := x.Call.StaticCallee(); f != nil {
+					return f.Name() == m
+				}
+			}
+			break
+		}
+		return false
+	}
 	for i := 0; i < 4; i++ {
 		switch x := v.(type) {
 		case *ssa.ChangeType:
@@ -2361,6 +2381,21 @@ func derivedFrom(v, src ssa.Value, depth int) bool {
 		return derivedFrom(x.X, src, depth+1)
 	case *ssa.Extract:
 		return derivedFrom(x.Tuple, src, depth+1)
+	case *ssa.Alloc:
+		// a struct built around the value: some field of the fresh object is assigned it
+		if refs := x.Referrers(); refs != nil {
+			for _, r := range *refs {
+				fa, ok := r.(*ssa.FieldAddr)
+				if !ok || fa.Referrers() == nil {
+					continue
+				}
+				for _, r2 := range *fa.Referrers() {
+					if st, ok := r2.(*ssa.Store); ok && st.Addr == fa && derivedFrom(st.Val, src, depth+1) {
+						return true
+					}
+				}
+			}
+		}
 	}
 	return false
 }
@@ -2402,6 +2437,17 @@ func handledObligations(g *Gen, fn *ssa.Function, key string, c *Contract) ([]*O
 				}
 				fail := func(why string, at token.Pos) {
 					out = append(out, &Obligation{Name: name, Kind: "handled", Fn: key, Clause: clause + ": " + why, Pos: g.pos(at), Reach: True, Goal: False, Gen: g})
+				}
+				// the comma-ok flag of the receive, if the code asks for it: paths on which
+				// it is false (channel closed, nothing received) have nothing to hand on
+				var okFlag ssa.Value
+				if ti >= 0 {
+					oi := 1
+					for _, r := range *in.(ssa.Value).Referrers() {
+						if e, ok := r.(*ssa.Extract); ok && e.Index == oi {
+							okFlag = e
+						}
+					}
 				}
 				if val == nil {
 					fail("the received value is discarded", in.Pos())
@@ -2466,7 +2512,17 @@ func handledObligations(g *Gen, fn *ssa.Function, key string, c *Contract) ([]*O
 					if handled || bad != "" {
 						continue
 					}
-					for _, s := range p.b.Succs {
+					succs := p.b.Succs
+					if okFlag != nil && len(p.b.Instrs) > 0 {
+						if iff, ok := p.b.Instrs[len(p.b.Instrs)-1].(*ssa.If); ok && len(succs) == 2 {
+							if iff.Cond == okFlag {
+								succs = succs[:1]
+							} else if u, ok := iff.Cond.(*ssa.UnOp); ok && u.Op == token.NOT && u.X == okFlag {
+								succs = succs[1:]
+							}
+						}
+					}
+					for _, s := range succs {
 						if !seen[s] {
 							seen[s] = true
 							work = append(work, pt{s, 0})
